@@ -799,6 +799,11 @@ class Dict(dict, base.Symbolic, pg_typing.CustomTyping):
     if base.treats_as_sealed(self):
       raise base.WritePermissionError('Cannot clear a sealed Dict.')
     value_spec = self._value_spec
+    if value_spec:
+      # Make sure that the cleared dict is acceptable (no required field is
+      # left without a value) before anything is removed.
+      value_spec.schema.apply(
+          {}, allow_partial=self._allow_partial, root_path=self.sym_path)
     self._value_spec = None
     old_items = list(self.sym_items())
     # Detach the removed values from the object tree.
@@ -810,7 +815,9 @@ class Dict(dict, base.Symbolic, pg_typing.CustomTyping):
     if value_spec:
       # Re-filling the defaults is part of the same change: it is reported
       # below, once, with the values the keys had before the call.
-      with flags.notify_on_change(False):
+      # NOTE: the defaults are written through the item accessor, which is
+      # not a user assignment: `accessor_writable=False` does not apply.
+      with flags.notify_on_change(False), flags.allow_writable_accessors(True):
         self.use_value_spec(value_spec, self._allow_partial)
 
     if flags.is_change_notification_enabled():
